@@ -1,14 +1,157 @@
-"""Recursive spec functions as uninterpreted symbols with unfolding; comprehension maps."""
-from .sym import Unsupported
+"""Recursive spec functions as uninterpreted symbols with engine-side unfolding ("fuel"), and
+comprehensions over symbolic lists as map symbols with a pointwise defining axiom."""
+import ast
+
+import z3
+
+from . import sym
+from .sym import (VInt, VBool, VBytes, VSeq, VHex, Unsupported, Chunk, zi, zb, mk_int, mk_bool,
+                  to_vbytes, IntS, BoolS, BytesS, LBytesS)
+
+SORTS = {"int": IntS, "bool": BoolS, "bytes": BytesS, "list:bytes": LBytesS, "list:int": BytesS}
+
+UF_SPECS = {}   # decl name -> (python function, sig)
+
+
+def uf(sig):
+    """Decorator for recursive spec functions: sig = 'bytes,int -> int'."""
+    args, ret = sig.split("->")
+    argt = [a.strip() for a in args.split(",") if a.strip()]
+    rett = ret.strip()
+
+    def deco(f):
+        f.__pyvc__ = {"kind": "uf", "args": argt, "ret": rett}
+        return f
+    return deco
+
+
+def to_z(v, ty):
+    if ty == "int":
+        return zi(v)
+    if ty == "bool":
+        return zb(v)
+    if ty == "bytes":
+        return to_vbytes(v).z
+    if ty.startswith("list:"):
+        from .models import to_vseq
+        like = VSeq(None, ty.split(":")[1])
+        return to_vseq(None, v, like=like).z
+    raise Unsupported(f"uf argument type {ty}")
+
+
+def from_z(z, ty):
+    if ty == "int":
+        return mk_int(z)
+    if ty == "bool":
+        return mk_bool(z)
+    if ty == "bytes":
+        return vbytes_from_term(z)
+    if ty.startswith("list:"):
+        parts = ty.split(":")
+        return VSeq(z, parts[1], int(parts[2]) if len(parts) > 2 else None)
+    raise Unsupported(f"uf result type {ty}")
+
+
+def vbytes_from_term(z):
+    """Rebuild the chunk structure of a (Seq Int) term (literal runs, statically known lengths)."""
+    from .sym import norm_bytes
+    parts = z.children() if z3.is_app_of(z, z3.Z3_OP_SEQ_CONCAT) else [z]
+    chunks = []
+    for p in parts:
+        if z3.is_app_of(p, z3.Z3_OP_SEQ_EMPTY):
+            continue
+        if z3.is_app_of(p, z3.Z3_OP_SEQ_UNIT):
+            e = p.arg(0)
+            if z3.is_int_value(e) and 0 <= e.as_long() < 256:
+                b = bytes([e.as_long()])
+                chunks.append(Chunk(sym.seqlit(b), 1, b))
+            else:
+                chunks.append(Chunk(p, 1))
+            continue
+        n = z3.simplify(z3.Length(p))
+        chunks.append(Chunk(p, n.as_long() if z3.is_int_value(n) else None))
+    r = norm_bytes(VBytes(chunks))
+    return r
+
+
+def decl_of(f, sp):
+    name = "spec_" + f.__name__
+    d = sym.uf(name, *[SORTS[a if not a.startswith("list:") else ":".join(a.split(":")[:2])] for a in sp["args"]],
+               SORTS[sp["ret"] if not sp["ret"].startswith("list:") else ":".join(sp["ret"].split(":")[:2])])
+    UF_SPECS[name] = (f, sp)
+    return d
 
 
 def apply_uf(it, f, sp, args, kwargs, node):
-    raise Unsupported("uf spec functions not implemented yet")
+    if kwargs:
+        raise Unsupported("keyword arguments to a uf spec function")
+    d = decl_of(f, sp)
+    zs = [to_z(a, t) for a, t in zip(args, sp["args"])]
+    return from_z(d(*zs), sp["ret"])
+
+
+def unfold_rules(thm):
+    """Axiom-instantiation rule: one-step unfolding of every occurring application of a uf spec function."""
+    from . import engine, verify
+
+    def rule(t):
+        if t.decl().kind() != z3.Z3_OP_UNINTERPRETED:
+            return []
+        ent = UF_SPECS.get(t.decl().name())
+        if ent is None:
+            return []
+        f, sp = ent
+        args = [from_z(c, ty) for c, ty in zip(t.children(), sp["args"])]
+        fd = engine._spec_fdef(f)
+
+        def run(ctx):
+            itp = engine.Interp(ctx, verify.repo())
+            env = itp.bind(fd, f, args, {}, None)
+            fr = engine.Frame(env, f.__globals__, f"spec:{f.__name__}", qual=f"spec.{f.__name__}", fdef=fd)
+            try:
+                itp.exec_block(fd.body, fr)
+            except engine.ReturnSig as r:
+                return r.value
+            return None
+
+        out = []
+        try:
+            paths = engine.explore(run, opts={"unfolding": True})
+        except Unsupported:
+            return []
+        for p in paths:
+            if p.kind != "return":
+                continue
+            val = to_z(p.value, sp["ret"])
+            cond = z3.And(*p.pc) if p.pc else z3.BoolVal(True)
+            out.append(z3.Implies(cond, t == val))
+        return out
+
+    return [rule] + lemma_rules(thm)
+
+
+def _lemma_b58val_nonneg(t):
+    """forall s. spec.b58val(s) >= 0   (proved by theorem C07.lemma.b58val_nonneg, induction on len(s))"""
+    if t.decl().kind() == z3.Z3_OP_UNINTERPRETED and t.decl().name() == "spec_b58val":
+        return [t >= 0]
+    return []
+
+
+LEMMAS = {"b58val_nonneg": _lemma_b58val_nonneg}   # enabled per theorem via options["lemmas"]
+
+
+def lemma_rules(thm):
+    return [LEMMAS[n] for n in thm.options.get("lemmas", [])]
+
+
+def lemma_rule_wrapper(rule):
+    return rule
+
+
+# ------------------------------------------------------------------------------ comprehension maps
+
+_MAPS = {}
 
 
 def seq_map(it, xs, e, g, fr):
     raise Unsupported("comprehension over symbolic list not implemented yet")
-
-
-def unfold_rules(thm):
-    return []
